@@ -171,6 +171,53 @@ def run(chk):
             for p in validate_font.validate(out["bytes"], expect_names=("--keep_glyph_names" in flags),
                                             ctx=f"maximum_color({fmt},{' '.join(flags)}): "):
                 chk.violation(p, {"format": fmt, "flags": flags})
+        # maximum_color --bitmaps on fonts whose colour glyph ids form several runs (a coloured .notdef at gid 0, the blank
+        # .space at gid 1, the other colour glyphs from gid 2): one CBLC strike per run, every colour glyph with exactly
+        # one bitmap
+        from fontTools.ttLib import TTFont as _TT
+
+        for k, fmt in enumerate(["picosvg", "glyf_colr_1"] if quick else ["picosvg", "glyf_colr_1", "glyf_colr_0", "untouchedsvg", "cff_colr_1"]):
+            r2 = common.rng("C07", "mc-gaps", k)
+            n = 3 + k % 3
+            cfg = build.base_config(color_format=fmt, keep_glyph_names=True, clip_to_viewbox=False)
+            vb = (0, 0, 100, 100)
+            srcs = [build.Src("notdef.svg", c04.svg_for(0, vb), None, cps=(), glyph_name=".notdef")]
+            srcs += [build.Src(S.filename_for(S.CODEPOINTS[i - 1]), c04.svg_for(i, vb), None) for i in range(1, n)]
+            flags = ["--bitmaps"] + (["--keep_glyph_names"] if k % 2 else [])
+            replay = {"kind": "maximum_color --bitmaps on a font with a coloured .notdef", "format": fmt, "flags": flags,
+                      "glyphs": [s2.glyph_name for s2 in srcs]}
+            chk.case(key=("maximum_color-gaps", fmt, tuple(flags)), nontrivial=True)
+            chk.traces_validated += 1
+            try:
+                _, font = build.build(cfg, srcs, reload=False, fea=False)
+                data = build.font_bytes(font)
+            except Exception as e:
+                raise MachineryError(f"input font for maximum_color (coloured .notdef, {fmt}) does not build: {e}")
+            out = c12.run_maximum_color(work / f"mcg{k}", fmt, flags, r2, font_bytes=data)
+            if out["rc"] != 0:
+                chk.violation(f"maximum_color {flags} on a {fmt} font with a coloured .notdef fails: {out['log'][-300:]}", replay)
+                continue
+            of = _TT(_io.BytesIO(out["bytes"]), lazy=False)
+            order = of.getGlyphOrder()
+            colour = set()
+            if "COLR" in of:
+                colr = of["COLR"]
+                if getattr(colr, "version", 0) == 0:
+                    colour |= set(colr.ColorLayers)
+                else:
+                    colour |= {rec.BaseGlyph for rec in colr.table.BaseGlyphList.BaseGlyphPaintRecord}
+                    if colr.table.BaseGlyphRecordArray:
+                        colour |= {rec.BaseGlyph for rec in colr.table.BaseGlyphRecordArray.BaseGlyphRecord}
+            gids = sorted(order.index(g) for g in colour)
+            if len(gids) < n:
+                chk.violation(f"maximum_color {flags}: only {len(gids)} of {n} colour glyphs have COLR records", replay)
+            runs = 1 + sum(1 for a2, b2 in zip(gids, gids[1:]) if b2 != a2 + 1)
+            chk.notes["maximum_color_gap_runs"] = max(chk.notes.get("maximum_color_gap_runs", 0), runs)
+            for p in validate_font.validate(out["bytes"], expect_names=("--keep_glyph_names" in flags),
+                                            ctx=f"maximum_color({fmt}, {' '.join(flags)}) with a coloured .notdef: ", bitmap_gids=gids):
+                chk.violation(p, replay)
+        if chk.notes.get("maximum_color_gap_runs", 0) < 2:
+            raise MachineryError("no maximum_color output has colour glyph ids in more than one run (family is vacuous)")
     chk.assumptions += ["fontTools decompilation is the reference reader; orderings it hides are read from raw bytes"]
 
 
